@@ -281,7 +281,8 @@ struct String {
     }
 
     inline void StepBack(const SizeT len) noexcept {
-        if (len <= Length()) {
+        // An empty string has no storage to put a terminator in.
+        if ((len != 0) && (len <= Length())) {
             Char_T     *str     = Storage();
             const SizeT new_len = (Length() - len);
 
